@@ -124,7 +124,7 @@ def _container_body(case):
 
 
 def tests():
-    out = [Test("space:" + name, partial(_body, t), quick=100 * t.weight, thorough=1200 * t.weight, shard_size=300)
+    out = [Test("space:" + name, partial(_body, t), quick=150 * t.weight, thorough=1200 * t.weight, shard_size=300)
            for name, t in sorted(TEMPLATES.items())]
     out.append(Test("space:containers", _container_body, quick=1500, thorough=15000, shard_size=250))
     return out
